@@ -11,4 +11,34 @@ CHECKS = {
   "technique": "TLA+ model checking (TLC) + trace validation of recorded executions",
   "ref": "DESIGN.md 5/C04",
  },
+ "C03": {
+  "text": "TLC exhausts the handshake/registration interleavings (MC_Conn; ReturnedIsListed, DialerLearns); real dials from an honest network to every combination of (honest X, honest Y, adversary replaying X's certificate with its own key, adversary with its own certificate) x (pin X / Y / adversary / none), sequentially and concurrently, with each early handshake datagram dropped in turn, are recorded and validated by AnemoConnTrace: the identity a dial attributes must be the identity of the party really listening at the address and equal to the pin, a listener never finishes TLS for a connection whose dialer did not (so no side effect), a reply Ok requires the peer to be listed at that instant.",
+  "note": "Trusts TLS 1.3 ordering as implemented by rustls/quinn and Ed25519 unforgeability (the adversary holds only its own key); bounded by sampled loss schedules.",
+  "technique": "TLA+ model checking (TLC) + trace validation of adversarial dial scenarios",
+  "ref": "DESIGN.md 5/C03",
+ },
+ "C05": {
+  "text": "TLC checks Converge/MutualAtQuiescence over every interleaving of one dial in each direction (MC_Conn_c05) and refutes the inverted-tie-break spec mutant; the tie-break table emitted by TLC is replayed into the real function over random id pairs (incl. ids differing in one byte); schedule gates hold the four finished connecting tasks of a real mutual dial and release them to the two managers in all 4! orders (both issue orders), plus random latency/loss/duplication variants; each recorded execution is validated by AnemoConnTrace including Converged (same connection, dialed by the greater id), reachability by RPC both ways, and Settled (no further events one idle period later).",
+  "note": "Gates reorder when finished tasks reach the managers; packet-level reordering inside quinn is sampled, not enumerated.",
+  "technique": "TLA+ model checking (TLC) + gate-driven schedule enumeration on the real code + trace validation",
+  "ref": "DESIGN.md 5/C05",
+ },
+ "C09": {
+  "text": "TLC checks MutualAtQuiescence over all interleavings incl. timeouts and disconnects; randomized 3-4 node histories with partitions (shorter and longer than the idle timeout), one-way blocks, loss bursts, restarts, with and without keep-alive, end with a fault-free period longer than the idle timeout; AnemoConnTrace checks at quiescence that views are mutual and on the same connection and every listed peer answers an RPC, that a disconnect removes at once with LostPeer(Requested) and RPCs are refused while not listed, that every handler exit has a cause the environment could have produced, and the CloseObservedBy deadline at every event.",
+  "note": "'No later than the idle timeout' is evaluated with QUIC's idle-timer rule: the deadline runs from the later of the peer's close and the survivor's last datagram received from / sent to the peer's address (+ keep-alive interval + 2 s slack).",
+  "technique": "TLA+ model checking (TLC) + trace validation of fault-injected multi-node histories",
+  "ref": "DESIGN.md 5/C09",
+ },
+ "C10": {
+  "text": "TLC checks the admission table (stated over the history of verdicts), RejectedDialerFails and mutual views for 3 networks with a limit, Allowed/Never/High affinities and non-overlapping dials (MC_Conn_c10), and refutes the off-by-one spec mutant; seed-enumerated sequences of arrivals, explicit dials, background dials, disconnects and affinity changes on real networks with limit in {none,0,1,2,3} are validated by AnemoConnTrace: each logged verdict must equal Admitted() evaluated on the specification's own state (affinity table, established-connection count), and a dial may only succeed through the listener's ack.",
+  "note": "Arrivals are non-overlapping as the property states; the count compared is the specification's, not the logged one.",
+  "technique": "TLA+ model checking (TLC) + trace validation of admission sequences",
+  "ref": "DESIGN.md 5/C10",
+ },
+ "C13": {
+  "text": "TLC checks NeverDialed, Spacing (from the dial history and from the time a failure was noticed), Rotation, CapRespected and ConnectsWithin on a discrete-time model of the connectivity check with peers flipping reachability (MC_Dial, two configurations) and refutes spec mutants (>= for >, no rotation, dialing Allowed, dialing self); long virtual-time runs of real networks with random known-peer tables (all affinities, self, empty/dead/live address lists), intervals, back-off steps, caps and reachability schedules are validated by AnemoConnTrace: every mgr.tick must be exactly Tick (drained set, back-off table, eligible set, number dialed, address index and address) and ticks must come every interval.",
+  "note": "ConnectsWithin is decided in the model and follows on traces from Tick + TicksOnTime; the trace spec recomputes eligibility from its own state.",
+  "technique": "TLA+ model checking (TLC) + trace validation of long virtual-time dialing schedules",
+  "ref": "DESIGN.md 5/C13",
+ },
 }
